@@ -2,6 +2,7 @@
 from .. import tables as T
 from ..rules import influence as R1
 from ..rules import refusal as R5
+from ..rules import meet as R1M
 
 CONFIGS_QUICK = ["default"]
 CONFIGS_THOROUGH = ["default", "nopar", "r1cs"]
@@ -12,7 +13,9 @@ EXPLANATION = (
     "TooManyCoefficients) are constructed in dependence of the polynomials, propagated to the result, and a refusal "
     "site dominates every multi-scalar multiplication, so nothing is committed before the bound is admitted "
     "(msm silently truncates to the shorter of bases and scalars). Verifier side (R1, transcript cut): the numeric "
-    "degree bound carried by the labelled commitment (the payload of the Option, not its is_some bit), the payload of "
+    "degree bound carried by the labelled commitment (the payload of the Option, not its is_some bit) - which, where "
+    "the key holds a table of enforced bounds, is matched against that table by an equality-capable comparison "
+    "(==, != or a three-way cmp; a lone `<` cannot tell an exact match from the next larger entry) -, the payload of "
     "the shifted commitment, and the verifier key's per-bound shift elements each reach the outcome of `check` and "
     "`batch_check`. The arithmetic of the shift is not decided.")
 RULE = ("instances = 6 admission rows x {variant present+dependent+propagated, admission dominates msm} + Sonic trim "
@@ -66,3 +69,17 @@ def run(rep, ctx, tier):
             for name, comp in comps:
                 ok, detail, where, n = R1.component(ctx, a, comp, cut_sponge=True)
                 rep.add("R1", "%s:%s" % (a.key, name), ok, detail, where or a.body.span, nontrivial=n > 0)
+            if "vk_field" in db:
+                # the label's numeric bound is matched *for equality* against the bounds the key was trimmed for
+                g = ctx.graph(a)
+                A = [("STATE", ("FIELD", T.LC, "degree_bound"), "usize")] if ("FIELD", T.LC, "degree_bound") in g.fwd else []
+                vf = ("FIELD", db["vk_field"][0], db["vk_field"][1])
+                B = [("STATE", vf, "usize")] if vf in g.fwd else []
+                if not A or not B:
+                    rep.add("R1m", "%s:bound-matched-exactly" % a.key, False, "degree bound or the key's bound table is never read (fail closed)", a.body.span)
+                else:
+                    ok, detail, where = R1M.check(ctx, a, A, B, cut_sponge=True, equality_only=True)
+                    rep.add("R1m", "%s:bound-matched-exactly" % a.key, ok,
+                            "the commitment's degree bound and the key's enforced bounds: %s" % detail +
+                            ("" if ok else " - without an equality test a bound the key was not trimmed for is served with a neighbouring entry"),
+                            where)
